@@ -48,6 +48,14 @@ SIM_CHECKS = [
     ("C29", "model_checking", sim_text("Decides that no DATA/DATA_FRAG of a sample is emitted after source timestamp + lifespan (first transmission, repair, history)."), "5.1, 6 C29"),
 ]
 
+OTHER_CHECKS = [
+    ("C15", "model_checking",
+     "Compat.tla states the DDS request/offered table and the partition matching rule as operators; TLC enumerates every pair of policy groups over all their abstract values (15 050 QoS records) and 693 partition-list pairs with the specification's verdict; both compatibility functions of the code are evaluated on every record (exhaustive) and sampled records / partition pairs are created as real writer/reader pairs in the deterministic simulation, where both sides must reach the specification's verdict.",
+     "5.4, 6 C15",
+     "Trusted: TLC, the abstract-to-concrete QoS mapping in harness/src/compat.rs, cfg(dust_dds_verif) wrappers around the two private compatibility functions. Pattern-against-pattern partitions and the incompatible-QoS status contents are not judged.",
+     "explicit TLA+ oracle enumerated by TLC; exhaustive comparison with the implementation's functions + end-to-end replay in the simulation"),
+]
+
 CHECKS = [
     ("C18", "model_checking", rc_text("Decides KEEP_LAST replacement/never-reject-for-depth and KEEP_ALL retention."), "5.2, 6 C18"),
     ("C19", "model_checking", rc_text("Decides reader-side resource limits and rejection reasons."), "5.2, 6 C19"),
@@ -74,7 +82,7 @@ def main():
     props = [json.loads(l)["id"] for l in open(os.path.join(VERIF, "properties.jsonl"))]
     checks = []
     claimed = set()
-    for (pid, level, text, ref), note, tech in [(c, SIM_NOTE, TECH_SIM) for c in SIM_CHECKS] + [(c, RC_NOTE, TECH) for c in CHECKS]:
+    for (pid, level, text, ref), note, tech in [(c, SIM_NOTE, TECH_SIM) for c in SIM_CHECKS] + [(c, RC_NOTE, TECH) for c in CHECKS] + [(c[:4], c[4], c[5]) for c in OTHER_CHECKS]:
         claimed.add(pid)
         checks.append({
             "property_id": pid,
